@@ -269,7 +269,7 @@ SUBC = dict(HASHBITS=4, MASKBITS=4, PAIRCAP=4, MASKKIND="sensible", MIN_SKIPS=2,
             RKFAST=4, ONESHOT=8, MAXP=3, VBS=2, MAXRANK=1)
 MM_INV = ["FindIsLeftmost", "RFindIsRightmost", "IterIsGreedy", "RevIterIsGreedy", "EmptyNeedleEveryOffset", "NoPanic",
           "LinearFind", "LinearIter", "EmitReplay"]
-SO_INV = ["Mirror", "GreedyHeads", "LiftLemma", "TruncLemma", "EmitReplay"]
+SO_INV = ["Mirror", "GreedyHeads", "LiftLemma", "TruncLemma", "ScanLemma", "EmitReplay"]
 TW_INV = ["FwdOK", "RevOK", "NoUnderflow", "FwdNoSkip", "RevNoSkip", "PrepLinear", "SearchLinear", "EmitReplay"]
 B1_INV = ["RabinKarpFwdOK", "RabinKarpRevOK", "ShiftOrOK", "RKCost", "EmitReplay"]
 PP_INV = ["FindOK", "PrefilterOK", "PortableOK", "Safe", "NoBad", "Linear", "EmitReplay"]
@@ -410,6 +410,8 @@ def c10(ctx):
     mm_replay(ctx, binp, vec, "cfg", {"result", "panic"}, 6 if q else 12)
     # near-miss family: lifts beyond the pad-only ones so that the needles exceed 32 bytes (Two-Way + prefilter)
     mm_replay(ctx, binp, nvec, "cfg", {"result", "panic"}, 8 if q else 12, forces=("avx2", "fallback"), tag="nearmiss")
+    # I->S at real constants: structured / tail / stray families under the default and three other rankers, prefilter on and off
+    lib_traces(ctx, "sub", "find,fwd", "api", 1000 if q else 8000, "sub")
     ctx.evaluations += sum_exec(ctx, ["mm_exec"])
     return C.finish(ctx, "model_checking", RULE_SUB + "; C10: the ranker is a nondeterministic function in the model (all functions Alpha -> Ranks), and the replay runs a ranker table "
                     "(constant 0/255, identity, reversed, seeded random, needle bytes commonest/rarest) x Prefilter::{None,Auto}")
